@@ -258,3 +258,17 @@ Theorem C01_lincode_multi_complete :
     Forall (honest_item wf) items -> l_check_all wf items = Ok true.
 Proof. exact @l_check_all_complete. Qed.
 Print Assumptions C01_lincode_multi_complete.
+
+(* Hyrax, several polynomials at one point (the scheme's open / check over lists, now part of the model): commitments from
+   commit, proofs from open with any RNG tape and challenges: check accepts the true values and ends on the prover's
+   challenge position *)
+Theorem C01_hyrax_list_complete :
+  forall (FO : FieldOps) (FL : FieldLaws FO) keylen nv point srs otape chal pfs ot' ch',
+    (1 <= keylen)%nat -> length point = nv -> keylen = (2 ^ (nv / 2))%nat ->
+    length (fst (h_lr point)) = keylen -> length (snd (h_lr point)) = keylen ->
+    Forall (committed keylen nv) srs ->
+    h_open_list keylen point (map fst srs) otape chal = Ok (pfs, ot', ch') ->
+    h_check_list keylen point (map snd srs)
+      (map (fun sr => vdot (Hyrax.row_mul (hs_mat (fst sr)) keylen (fst (h_lr point))) (snd (h_lr point))) srs) pfs chal = Ok (true, ch').
+Proof. exact @h_list_complete. Qed.
+Print Assumptions C01_hyrax_list_complete.
